@@ -2,7 +2,7 @@
    fmt.Sprintf) on a format  pre ++ <conversion specification> ++ post  equals
    the C specification, for the integer conversions. *)
 From Verif Require Import Lib.Base Lib.Dyadic Lib.Utf8 Model.Printf
-  Proofs.PrintfSpec Proofs.PrintfBase Proofs.PrintfInt Proofs.PrintfDir.
+  Proofs.PrintfSpec Proofs.PrintfBase Proofs.PrintfInt Proofs.PrintfDir Proofs.PrintfScan.
 
 (* the AWK way to an integer: truncation toward zero of a finite number *)
 Definition awk_int (x : fnum) : option Z :=
@@ -34,73 +34,20 @@ Proof. unfold index. rewrite !zlen_cons. pose proof (zlen_nonneg l).
   replace (2 <? 1 + (1 + (1 + zlen l))) with true by (symmetry; apply Z.ltb_lt; lia). reflexivity. Qed.
 
 (* ---- parseFmtTypes on pre ++ render d ++ post ---- *)
-Lemma is_flag_fmtch c : is_flag c = true -> is_fmtch c = true.
-Proof.
-  unfold is_flag, is_fmtch, is_digit. intros H.
-  repeat (apply orb_true_iff in H as [H|H]); apply Z.eqb_eq in H; subst c; reflexivity.
-Qed.
-Lemma is_dig_fmtch c : is_dig c = true -> is_fmtch c = true.
-Proof. unfold is_fmtch. intros H. change (is_digit c) with (is_dig c). rewrite H. rewrite !orb_true_r. reflexivity. Qed.
-
-Lemma forallb_impl {A} (p q : A -> bool) l : (forall x, p x = true -> q x = true) -> forallb p l = true -> forallb q l = true.
-Proof. intros H. induction l as [|x t IH]; cbn [forallb]; [reflexivity|]. intros E. apply andb_true_iff in E as [E1 E2].
-  rewrite (H x E1), (IH E2). reflexivity. Qed.
-
-Lemma filter_none {A} (p : A -> bool) l : forallb (fun x => negb (p x)) l = true -> filter p l = [].
-Proof. induction l as [|x t IH]; cbn [forallb filter]; [reflexivity|]. intros E. apply andb_true_iff in E as [E1 E2].
-  apply negb_true_iff in E1. rewrite E1. apply IH. exact E2. Qed.
-
-Definition run_of (d : dir) : bytes := d_flags d ++ render_w (d_width d) ++ render_p (d_prec d).
-
-Definition dir_tys (d : dir) : list ty :=
-  (match d_width d with WStar => [TyD] | _ => [] end) ++ (match d_prec d with PrStar => [TyD] | _ => [] end).
-
-Lemma run_fmtch d : wf_dir d = true -> forallb is_fmtch (run_of d) = true /\ star_tys (run_of d) = dir_tys d.
-Proof.
-  intros Hwf. unfold wf_dir in Hwf. apply andb_true_iff in Hwf as [Hwf Hwp]. apply andb_true_iff in Hwf as [Hfl Hww].
-  destruct d as [fl w p c]. unfold run_of, dir_tys, star_tys. cbn [d_flags d_width d_prec] in *.
-  assert (Hnf : forall l, forallb is_flag l = true -> filter (fun c => c =? 42) l = []).
-  { intros l H. apply filter_none. eapply forallb_impl; [|exact H]. intros x Hx. unfold is_flag in Hx.
-    repeat (apply orb_true_iff in Hx as [Hx|Hx]); apply Z.eqb_eq in Hx; subst x; reflexivity. }
-  assert (Hnd : forall l, forallb is_dig l = true -> filter (fun c => c =? 42) l = []).
-  { intros l H. apply filter_none. eapply forallb_impl; [|exact H]. intros x Hx. unfold is_dig in Hx.
-    apply andb_true_iff in Hx as [A B]. apply Z.leb_le in A, B. apply negb_true_iff, Z.eqb_neq. lia. }
-  rewrite !forallb_app, !filter_app, !map_app. rewrite (Hnf fl Hfl). rewrite (forallb_impl _ _ fl is_flag_fmtch Hfl).
-  cbn [map app andb].
-  assert (Hw : forallb is_fmtch (render_w w) = true /\ map (fun _ => TyD) (filter (fun c => c =? 42) (render_w w)) = match w with WStar => [TyD] | _ => [] end).
-  { destruct w as [|ds|]; cbn [render_w]; [split; reflexivity | | split; reflexivity].
-    destruct ds as [|c0 t0]; [discriminate|]. apply andb_true_iff in Hww as [Hww Ht0]. apply andb_true_iff in Hww as [Hc0 _].
-    assert (Hall : forallb is_dig (c0 :: t0) = true) by (cbn [forallb]; rewrite Hc0, Ht0; reflexivity).
-    rewrite (Hnd _ Hall). split; [exact (forallb_impl _ _ _ is_dig_fmtch Hall) | reflexivity]. }
-  assert (Hp : forallb is_fmtch (render_p p) = true /\ map (fun _ => TyD) (filter (fun c => c =? 42) (render_p p)) = match p with PrStar => [TyD] | _ => [] end).
-  { destruct p as [|ds|]; cbn [render_p]; [split; reflexivity | | split; reflexivity].
-    cbn [forallb filter]. change (46 =? 42) with false. cbv iota. rewrite (Hnd _ Hwp).
-    split; [exact (forallb_impl _ _ _ is_dig_fmtch Hwp) | reflexivity]. }
-  destruct Hw as [-> ->]. destruct Hp as [-> ->]. split; reflexivity.
-Qed.
-
-Lemma conv_byte_not_fmtch c : is_fmtch (conv_byte c) = false.
-Proof. destruct c; reflexivity. Qed.
-
-Definition go_render (d : dir) : bytes := 37 :: tail_of d (go_conv_byte (d_conv d)).
+Definition go_render (d : dir) : bytes := 37 :: go_tail d.
 
 Theorem parse_render d pre post : wf_dir d = true -> no_pct pre = true -> no_pct post = true ->
   parse_fmt_types (pre ++ render d ++ post)
-  = Ok (pre ++ go_render d ++ post, dir_tys d ++ [conv_ty (d_conv d)]).
+  = Ok (pre ++ go_render d ++ post, dir_tys d ++ [conv_ty (d_conv d)], dir_stars d (zlen pre + 1)).
 Proof.
-  intros Hwf Hpre Hpost. unfold parse_fmt_types. rewrite (pft_lit_app pre _ Hpre).
-  destruct (run_fmtch d Hwf) as [Hrun Htys].
-  unfold render, go_render, tail_of. fold (run_of d).
-  assert (E : (37 :: d_flags d ++ render_w (d_width d) ++ render_p (d_prec d) ++ [conv_byte (d_conv d)]) ++ post
-              = 37 :: run_of d ++ conv_byte (d_conv d) :: post).
-  { unfold run_of. cbn [app]. rewrite <- !app_assoc. reflexivity. }
-  rewrite E. cbn [pft]. change (37 =? 37) with true. cbv iota.
-  rewrite (pft_pct_run (run_of d) _ _ _ post Hrun (verb_info_conv (d_conv d)) (conv_byte_not_fmtch _)).
-  rewrite (pft_lit post Hpost). unfold cons_out. rewrite Htys. f_equal. f_equal.
-  unfold run_of. cbn [app]. rewrite <- !app_assoc. reflexivity.
+  intros Hwf Hpre Hpost. unfold parse_fmt_types. rewrite (pft_lit_app pre _ _ Hpre).
+  rewrite render_tail. cbn [app pft]. change (37 =? 37) with true. cbv iota.
+  rewrite cons_out_prepend. rewrite (pft_dir _ d post Hwf). rewrite (pft_lit post _ Hpost).
+  cbn [prepend]. rewrite !app_nil_r. unfold go_render. rewrite Z.add_0_l. cbn [app].
+  reflexivity.
 Qed.
 
-(* ---- the modelled fmt.Sprintf on pre ++ go_render d ++ post ---- *)
+(* ---- the modelled fmt.Sprintf on pre ++ % tail ++ post ---- *)
 Lemma span_lit_pre pre x : no_pct pre = true -> span_lit (pre ++ 37 :: x) = (pre, 37 :: x).
 Proof.
   induction pre as [|c t IH]; intros H; [reflexivity|].
@@ -115,25 +62,62 @@ Proof.
   cbn [span_lit]. rewrite Hc, (IH Ht). reflexivity.
 Qed.
 
-Theorem go_sprintf_render d wv pv a pre post :
-  wf_dir d = true -> in_lim d wv pv -> no_pct pre = true -> no_pct post = true ->
+Theorem go_sprintf_tail d wv pv verb a pre post :
+  wf_dir d = true -> in_lim d wv pv -> verb_ok verb -> no_pct pre = true -> no_pct post = true ->
   exists f, st_matches f (resolve d wv pv) /\
-    go_sprintf (pre ++ go_render d ++ post) (star_gargs d wv pv ++ [a])
-    = match print_arg f a (go_conv_byte (d_conv d)) with
+    go_sprintf (pre ++ 37 :: tail_of d verb ++ post) (star_gargs d wv pv ++ [a])
+    = match print_arg f a verb with
       | Ok o => Ok (pre ++ o ++ post)
       | Err m => Err m | Panic => Panic | Unmod => Unmod
       end.
 Proof.
-  intros Hwf Hlim Hpre Hpost.
-  destruct (go_directive_render d wv pv (go_conv_byte (d_conv d)) a [] post Hwf Hlim (go_conv_byte_ok _)) as (f & Hst & Hdir).
+  intros Hwf Hlim Hv Hpre Hpost.
+  destruct (go_directive_render d wv pv verb a [] post Hwf Hlim Hv) as (f & Hst & Hdir).
   exists f. split; [exact Hst|].
-  unfold go_sprintf, go_render.
-  assert (E : pre ++ (37 :: tail_of d (go_conv_byte (d_conv d))) ++ post
-              = pre ++ 37 :: (tail_of d (go_conv_byte (d_conv d)) ++ post)) by reflexivity.
-  rewrite E. cbn [go_printf]. rewrite (span_lit_pre pre _ Hpre). rewrite Hdir.
-  destruct (print_arg f a (go_conv_byte (d_conv d))) as [o| | |]; try reflexivity.
+  unfold go_sprintf. cbn [go_printf]. rewrite (span_lit_pre pre _ Hpre). rewrite Hdir.
+  destruct (print_arg f a verb) as [o| | |]; try reflexivity.
   rewrite app_length. cbn [length]. rewrite Nat.add_succ_r. cbn [go_printf].
   rewrite (span_lit_all post Hpost). cbn [go_extra]. rewrite app_nil_r. reflexivity.
+Qed.
+
+(* ---- the directive fmt sees after translation and after sprintf's patch ---- *)
+Definition set_dprec (d : dir) (p : pr) : dir := mkDir (d_flags d) (d_width d) p (d_conv d).
+Definition is_float_conv (c : conv) : bool := match c with Ce | CE | Cf | Cg | CG => true | _ => false end.
+
+(* g/G without precision carry .6; a negative '*' precision is dropped (for the
+   floating conversions: replaced by the value 6) *)
+Definition eff_dir (d : dir) (pv : Z) : dir :=
+  match d_prec d with
+  | PrNone => if is_g (d_conv d) then set_dprec d (PrLit [54]) else d
+  | PrStar => if (pv <? 0) && negb (is_float_conv (d_conv d)) then set_dprec d PrNone else d
+  | PrLit _ => d
+  end.
+Definition eff_pv (d : dir) (pv : Z) : Z :=
+  match d_prec d with PrStar => if (pv <? 0) && is_float_conv (d_conv d) then 6 else pv | _ => pv end.
+
+Lemma ins_true cv : ins cv true = [].
+Proof. unfold ins. rewrite andb_false_r. reflexivity. Qed.
+
+(* ---- slicing the format ---- *)
+Lemma slice_prefix {A} (a b : list A) : slice (a ++ b) 0 (zlen a) = Ok a.
+Proof.
+  unfold slice. rewrite zlen_app. pose proof (zlen_nonneg a). pose proof (zlen_nonneg b).
+  replace (0 <=? 0) with true by reflexivity.
+  replace (0 <=? zlen a) with true by (symmetry; apply Z.leb_le; lia).
+  replace (zlen a <=? zlen a + zlen b) with true by (symmetry; apply Z.leb_le; lia).
+  cbn [andb]. rewrite zdrop_0, Z.sub_0_r. unfold ztake, zlen. rewrite Nat2Z.id.
+  rewrite firstn_app, Nat.sub_diag, firstn_all. cbn [firstn]. rewrite app_nil_r. reflexivity.
+Qed.
+
+Lemma slice_suffix {A} (a b : list A) : slice (a ++ b) (zlen a) (zlen (a ++ b)) = Ok b.
+Proof.
+  unfold slice. rewrite zlen_app. pose proof (zlen_nonneg a). pose proof (zlen_nonneg b).
+  replace (0 <=? zlen a) with true by (symmetry; apply Z.leb_le; lia).
+  replace (zlen a <=? zlen a + zlen b) with true by (symmetry; apply Z.leb_le; lia).
+  replace (zlen a + zlen b <=? zlen a + zlen b) with true by (symmetry; apply Z.leb_le; lia).
+  cbn [andb]. unfold zdrop, ztake, zlen. rewrite Nat2Z.id. rewrite skipn_app, Nat.sub_diag, skipn_all. cbn [skipn app].
+  replace (Z.of_nat (length a) + Z.of_nat (length b) - Z.of_nat (length a)) with (Z.of_nat (length b)) by lia.
+  rewrite Nat2Z.id. rewrite firstn_all. reflexivity.
 Qed.
 
 (* ---- argument lists ---- *)
@@ -141,63 +125,322 @@ Definition args_for (d : dir) (aw ap a : value) (extra : list value) : list valu
   (match d_width d with WStar => [aw] | _ => [] end)
   ++ (match d_prec d with PrStar => [ap] | _ => [] end) ++ a :: extra.
 
-Lemma conv_args_render chars ffmt d aw ap a extra wv pv g :
-  (d_width d = WStar -> f2i64 (v_num aw) = wv) ->
+Lemma conv_ty_not_p cv : conv_ty cv <> TyP.
+Proof. destruct cv; discriminate. Qed.
+
+Lemma conv_ty_float cv : (match conv_ty cv with TyF => true | _ => false end) = is_float_conv cv.
+Proof. destruct cv; reflexivity. Qed.
+
+(* ---- steps of the conversion loop ---- *)
+Lemma conv_args_last chars ffmt cv a g i rest fm st rm :
+  conv_arg chars ffmt (conv_ty cv) a = Ok g -> index rest i = Ok a ->
+  conv_args chars ffmt [conv_ty cv] rest i fm st rm = Ok (fm, [g]).
+Proof.
+  intros Hg Hi. cbn [conv_args]. rewrite Hi. cbn [rbind].
+  destruct (conv_ty cv) eqn:ET; try (rewrite Hg; reflexivity). exfalso. exact (conv_ty_not_p _ ET).
+Qed.
+
+Lemma conv_args_width chars ffmt ts aw wv i rest fm st rm :
+  conv_arg chars ffmt TyD aw = Ok (GInt wv) -> index rest i = Ok aw ->
+  conv_args chars ffmt (TyD :: ts) rest i fm st rm
+  = cons_arg (GInt wv) (conv_args chars ffmt ts rest (i + 1) fm st rm).
+Proof. intros Hw Hi. cbn [conv_args]. rewrite Hi. cbn [rbind]. rewrite Hw. reflexivity. Qed.
+
+Lemma conv_args_p_step chars ffmt ts rest i fm off stars' rm :
+  conv_args chars ffmt (TyP :: ts) rest i fm (off :: stars') rm
+  = (do a <- index rest i;
+     let n := f2i64 (v_num a) in
+     if n <? 0 then
+       match ts with
+       | [] => Panic
+       | TyF :: _ => cons_arg (GInt 6) (conv_args chars ffmt ts rest (i + 1) fm stars' rm)
+       | _ => do f1 <- slice fm 0 (off - rm);
+              do f2 <- slice fm (off - rm + 2) (zlen fm);
+              conv_args chars ffmt ts rest (i + 1) (f1 ++ f2) stars' (rm + 2)
+       end
+     else cons_arg (GInt n) (conv_args chars ffmt ts rest (i + 1) fm stars' rm)).
+Proof. reflexivity. Qed.
+
+(* the '*' precision: kept, replaced by 6 (floating conversions), or its ".*" cut out of the format *)
+Lemma conv_args_prec chars ffmt cv ap a g pv (A post : bytes) stars' i rest :
+  f2i64 (v_num ap) = pv -> conv_arg chars ffmt (conv_ty cv) a = Ok g ->
+  index rest i = Ok ap -> index rest (i + 1) = Ok a ->
+  conv_args chars ffmt [TyP; conv_ty cv] rest i (A ++ 46 :: 42 :: go_conv_byte cv :: post) (zlen A :: stars') 0
+  = Ok (A ++ (if (pv <? 0) && negb (is_float_conv cv) then [] else [46; 42]) ++ go_conv_byte cv :: post,
+        (if (pv <? 0) && negb (is_float_conv cv) then []
+         else [GInt (if (pv <? 0) && is_float_conv cv then 6 else pv)]) ++ [g]).
+Proof.
+  intros Hp Hg Hi Hi1.
+  pose proof (fun fm st rm => conv_args_last chars ffmt cv a g (i + 1) rest fm st rm Hg Hi1) as HL.
+  rewrite conv_args_p_step. rewrite Hi. cbn [rbind]. cbv zeta. rewrite Hp.
+  rewrite <- (conv_ty_float cv).
+  destruct (pv <? 0) eqn:EN; cbn [andb].
+  - destruct (conv_ty cv) eqn:ET; try (exfalso; exact (conv_ty_not_p _ ET)); cbn [negb app];
+      try (rewrite Z.sub_0_r; rewrite slice_prefix; cbn [rbind];
+           replace (A ++ 46 :: 42 :: go_conv_byte cv :: post) with ((A ++ [46; 42]) ++ go_conv_byte cv :: post)
+             by (rewrite <- app_assoc; reflexivity);
+           replace (zlen A + 2) with (zlen (A ++ [46; 42])) by (rewrite zlen_app; reflexivity);
+           rewrite slice_suffix; cbn [rbind]; rewrite HL; reflexivity).
+    rewrite HL. reflexivity.
+  - cbn [negb app]. rewrite HL. reflexivity.
+Qed.
+
+(* the conversion loop of sprintf on the arguments of one directive *)
+Lemma conv_args_render chars ffmt d aw ap a extra wv pv g pre post :
+  (d_width d = WStar -> conv_arg chars ffmt TyD aw = Ok (GInt wv)) ->
   (d_prec d = PrStar -> f2i64 (v_num ap) = pv) ->
   conv_arg chars ffmt (conv_ty (d_conv d)) a = Ok g ->
   conv_args chars ffmt (dir_tys d ++ [conv_ty (d_conv d)]) (args_for d aw ap a extra) 0
-  = Ok (star_gargs d wv pv ++ [g]) /\
+            (pre ++ go_render d ++ post) (dir_stars d (zlen pre + 1)) 0
+  = Ok (pre ++ 37 :: tail_of (eff_dir d pv) (go_conv_byte (d_conv d)) ++ post,
+        star_gargs (eff_dir d pv) wv (eff_pv d pv) ++ [g]) /\
   (zlen (dir_tys d ++ [conv_ty (d_conv d)]) >? zlen (args_for d aw ap a extra)) = false.
 Proof.
-  intros Hw Hp Hg. unfold dir_tys, args_for, star_gargs.
-  destruct (d_width d) eqn:EW; destruct (d_prec d) eqn:EP; cbn [app conv_args];
-    rewrite ?index_0; cbn [rbind conv_arg Z.add]; rewrite ?index_1; cbn [rbind conv_arg Z.add]; rewrite ?index_2; cbn [rbind];
-    rewrite ?Hg; cbn [rbind]; rewrite ?(Hw eq_refl), ?(Hp eq_refl);
-    (split; [reflexivity | rewrite ?zlen_cons, ?zlen_nil; pose proof (zlen_nonneg extra); rewrite Z.gtb_ltb; apply Z.ltb_ge; lia]).
+  intros Hw Hp Hg. split.
+  2:{ unfold dir_tys, args_for, w_tys, p_tys. destruct (d_width d), (d_prec d); cbn [app];
+      rewrite ?zlen_cons, ?zlen_nil; pose proof (zlen_nonneg extra); rewrite Z.gtb_ltb; apply Z.ltb_ge; lia. }
+  unfold go_render, go_tail, dir_tys, dir_stars, args_for, star_gargs, eff_dir, eff_pv, tail_of, w_tys, p_tys, p_stars, set_dprec.
+  destruct d as [fl w p cv]. cbn [d_flags d_width d_prec d_conv] in *.
+  destruct p as [|ds|]; cbn [render_p has_p app d_prec d_flags d_width d_conv].
+  - (* no precision *)
+    assert (E : forall X : bytes, ins cv false ++ X = render_p (if is_g cv then PrLit [54] else PrNone) ++ X).
+    { intros X. unfold ins. rewrite andb_true_r. destruct (is_g cv); reflexivity. }
+    assert (F : forall (P : dir -> bytes),
+              P (if is_g cv then mkDir fl w (PrLit [54]) cv else mkDir fl w PrNone cv)
+              = P (mkDir fl w (if is_g cv then PrLit [54] else PrNone) cv)) by (intros P; destruct (is_g cv); reflexivity).
+    destruct w as [|wds|]; cbn [app render_w].
+    + rewrite (conv_args_last chars ffmt cv a g _ _ _ _ _ Hg (index_0 _ _)).
+      destruct (is_g cv) eqn:EG; cbn [d_flags d_width d_prec d_conv render_w render_p app]; unfold ins; rewrite EG; reflexivity.
+    + rewrite (conv_args_last chars ffmt cv a g _ _ _ _ _ Hg (index_0 _ _)).
+      destruct (is_g cv) eqn:EG; cbn [d_flags d_width d_prec d_conv render_w render_p app]; unfold ins; rewrite EG; reflexivity.
+    + rewrite (conv_args_width chars ffmt _ aw wv _ _ _ _ _ (Hw eq_refl) (index_0 _ _)).
+      rewrite (conv_args_last chars ffmt cv a g _ _ _ _ _ Hg (index_1 _ _ _)). cbn [cons_arg].
+      destruct (is_g cv) eqn:EG; cbn [d_flags d_width d_prec d_conv render_w render_p app]; unfold ins; rewrite EG; reflexivity.
+  - (* literal precision *)
+    rewrite ins_true. cbn [app].
+    destruct w as [|wds|]; cbn [app render_w].
+    + rewrite (conv_args_last chars ffmt cv a g _ _ _ _ _ Hg (index_0 _ _)). reflexivity.
+    + rewrite (conv_args_last chars ffmt cv a g _ _ _ _ _ Hg (index_0 _ _)). reflexivity.
+    + rewrite (conv_args_width chars ffmt _ aw wv _ _ _ _ _ (Hw eq_refl) (index_0 _ _)).
+      rewrite (conv_args_last chars ffmt cv a g _ _ _ _ _ Hg (index_1 _ _ _)). reflexivity.
+  - (* '*' precision *)
+    rewrite ins_true. cbn [app]. specialize (Hp eq_refl).
+    assert (N : forall (A : bytes) F O rest i,
+              F = A ++ 46 :: 42 :: go_conv_byte cv :: post -> O = zlen A ->
+              index rest i = Ok ap -> index rest (i + 1) = Ok a ->
+              conv_args chars ffmt [TyP; conv_ty cv] rest i F [O] 0
+              = Ok (A ++ (if (pv <? 0) && negb (is_float_conv cv) then [] else [46; 42]) ++ go_conv_byte cv :: post,
+                    (if (pv <? 0) && negb (is_float_conv cv) then []
+                     else [GInt (if (pv <? 0) && is_float_conv cv then 6 else pv)]) ++ [g])).
+    { intros A F O rest i -> -> Hi Hi1. exact (conv_args_prec chars ffmt cv ap a g pv A post [] i rest Hp Hg Hi Hi1). }
+    destruct w as [|wds|]; cbn [app render_w].
+    + erewrite (N (pre ++ 37 :: fl));
+        [ | repeat (rewrite <- ?app_assoc; cbn [app]); reflexivity | zl; lia | apply index_0 | apply index_1 ].
+      destruct ((pv <? 0) && negb (is_float_conv cv)); cbn [d_flags d_width d_prec d_conv render_w render_p app];
+        repeat (rewrite <- ?app_assoc; cbn [app]); reflexivity.
+    + erewrite (N (pre ++ 37 :: fl ++ wds));
+        [ | repeat (rewrite <- ?app_assoc; cbn [app]); reflexivity | zl; lia | apply index_0 | apply index_1 ].
+      destruct ((pv <? 0) && negb (is_float_conv cv)); cbn [d_flags d_width d_prec d_conv render_w render_p app];
+        repeat (rewrite <- ?app_assoc; cbn [app]); reflexivity.
+    + rewrite (conv_args_width chars ffmt _ aw wv _ _ _ _ _ (Hw eq_refl) (index_0 _ _)).
+      erewrite (N (pre ++ 37 :: fl ++ [42]));
+        [ | repeat (rewrite <- ?app_assoc; cbn [app]); reflexivity | zl; lia | apply index_1 | apply index_2 ].
+      cbn [cons_arg]. destruct ((pv <? 0) && negb (is_float_conv cv)); cbn [d_flags d_width d_prec d_conv render_w render_p app];
+        repeat (rewrite <- ?app_assoc; cbn [app]); reflexivity.
 Qed.
 
 (* ---- the integer conversions ---- *)
 Definition is_int_conv (c : conv) : bool :=
   match c with Cd | Ci | Co | Cu | Cx | CX => true | _ => false end.
 
-(* the combinations of flags / precision / value in which fmt and C differ *)
+(* the combinations of flags / precision / value in which fmt and C still differ *)
 Definition int_ok (d : dir) (r : rspec) (v : Z) : Prop :=
   match d_conv d with
   | Cd | Ci => ~ (r_prec r = Some 0 /\ v = 0 /\ r_plus r || r_space r = true)
   | c => unsigned_ok r c (v mod two64)
   end.
 
+(* width / precision within fmt's limit of 10^6; a '*' precision may be negative *)
+Definition lim (d : dir) (wv pv : Z) : Prop :=
+  match d_width d with
+  | WLit ds => dval ds <= 1000000 | WStar => -1000000 <= wv <= 1000000 | WNone => True end /\
+  match d_prec d with
+  | PrLit ds => dval ds <= 1000000 | PrStar => - two63 <= pv <= 1000000 | PrNone => True end.
+
+Lemma conv_arg_d_in_range chars ffmt a v : awk_int (v_num a) = Some v -> - two63 <= v < two63 ->
+  conv_arg chars ffmt TyD a = Ok (GInt v).
+Proof.
+  intros Ha Hv. cbn [conv_arg]. destruct (v_num a) as [| |m e] eqn:E; cbn [awk_int] in Ha; try discriminate.
+  injection Ha as Ha. cbv zeta. rewrite Ha.
+  replace (two63 <=? v) with false by (symmetry; apply Z.leb_gt; lia).
+  replace (v <? - two63) with false by (symmetry; apply Z.ltb_ge; lia). cbn [orb].
+  rewrite (f2i64_awk_int (FFin m e) v); [reflexivity | cbn [awk_int]; rewrite Ha; reflexivity | exact Hv].
+Qed.
+
+Lemma conv_arg_d_big chars ffmt a v : awk_int (v_num a) = Some v -> ~ (- two63 <= v < two63) ->
+  conv_arg chars ffmt TyD a = Ok (GBig v).
+Proof.
+  intros Ha Hv. cbn [conv_arg]. destruct (v_num a) as [| |m e] eqn:E; cbn [awk_int] in Ha; try discriminate.
+  injection Ha as Ha. cbv zeta. rewrite Ha.
+  destruct (two63 <=? v) eqn:A; [reflexivity|]. destruct (v <? - two63) eqn:B; [reflexivity|].
+  apply Z.leb_gt in A. apply Z.ltb_ge in B. exfalso. apply Hv. lia.
+Qed.
+
+Lemma conv_arg_u chars ffmt a v : awk_int (v_num a) = Some v -> - two63 <= v < two64 ->
+  conv_arg chars ffmt TyU a = Ok (GUint (v mod two64)).
+Proof.
+  intros Ha Hv. cbn [conv_arg]. destruct (v_num a) as [| |m e] eqn:E; cbn [awk_int] in Ha; try discriminate.
+  injection Ha as Ha. cbv zeta. rewrite Ha.
+  destruct (two63 <=? v) eqn:A.
+  - apply Z.leb_le in A. replace (v <? two64) with true by (symmetry; apply Z.ltb_lt; lia). cbn [andb].
+    rewrite Z.mod_small by (unfold two63, two64 in *; lia). reflexivity.
+  - apply Z.leb_gt in A. cbn [andb].
+    rewrite (f2i64_awk_int (FFin m e) v); [| cbn [awk_int]; rewrite Ha; reflexivity | lia].
+    rewrite i64_to_u64_mod by lia. reflexivity.
+Qed.
+
+Lemma wf_set_dprec d p : wf_dir d = true -> wf_p p = true -> wf_dir (set_dprec d p) = true.
+Proof.
+  unfold wf_dir, set_dprec. cbn [d_flags d_width d_prec]. intros H Hp.
+  apply andb_true_iff in H as [H _]. rewrite H. destruct p; exact Hp.
+Qed.
+
+Lemma resolve_eff d wv pv : is_float_conv (d_conv d) = false -> is_g (d_conv d) = false ->
+  wf_dir (eff_dir d pv) = wf_dir d /\ d_conv (eff_dir d pv) = d_conv d /\
+  resolve (eff_dir d pv) wv (eff_pv d pv) = resolve d wv pv /\
+  (lim d wv pv -> in_lim (eff_dir d pv) wv (eff_pv d pv)).
+Proof.
+  intros Hf Hg. destruct d as [fl w p cv]. unfold eff_dir, eff_pv, lim, in_lim, set_dprec, resolve, wf_dir.
+  cbn [d_flags d_width d_prec d_conv] in *. rewrite Hf, Hg. rewrite andb_false_r, andb_true_r.
+  destruct p as [|ds|]; cbn [d_flags d_width d_prec d_conv].
+  - split; [reflexivity|]. split; [reflexivity|]. split; [reflexivity|]. intros [A B]; split; assumption.
+  - split; [reflexivity|]. split; [reflexivity|]. split; [reflexivity|]. intros [A B]; split; assumption.
+  - destruct (pv <? 0) eqn:EN; cbn [d_flags d_width d_prec d_conv].
+    + split; [rewrite andb_true_r; reflexivity|]. split; [reflexivity|]. split; [reflexivity|].
+      intros [A B]; split; [exact A | exact I].
+    + rewrite ?EN. apply Z.ltb_ge in EN. split; [reflexivity|]. split; [reflexivity|]. split; [try rewrite (proj2 (Z.ltb_ge pv 0) EN); reflexivity|].
+      intros [A B]; split; [exact A | lia].
+Qed.
+
+(* the converted argument of an integer conversion and what fmt prints for it *)
+Lemma int_arg_print chars ffmt d wv pv a v :
+  is_int_conv (d_conv d) = true -> awk_int (v_num a) = Some v ->
+  (conv_ty (d_conv d) = TyU -> - two63 <= v < two64) ->
+  int_ok d (resolve d wv pv) v ->
+  exists g, conv_arg chars ffmt (conv_ty (d_conv d)) a = Ok g /\
+    forall f, st_matches f (resolve d wv pv) ->
+      print_arg f g (go_conv_byte (d_conv d)) = Ok (c_directive chars d wv pv (AInt v)).
+Proof.
+  intros Hic Ha Hu Hok. unfold c_directive, int_ok in *.
+  assert (Sg : exists g, conv_arg chars ffmt TyD a = Ok g /\
+            forall f r, st_matches f r -> ~ (r_prec r = Some 0 /\ v = 0 /\ r_plus r || r_space r = true) ->
+              print_arg f g 100 = Ok (c_signed r v)).
+  { destruct (Z_le_dec (- two63) v) as [L|L]; [destruct (Z_lt_dec v two63) as [U|U]|].
+    - exists (GInt v). split; [apply conv_arg_d_in_range; [exact Ha | lia]|].
+      intros f r Hst Hk. cbn [print_arg int_verb Z.eqb Pos.eqb orb]. rewrite (fmt_integer_signed f _ v Hst Hk). reflexivity.
+    - exists (GBig v). split; [apply conv_arg_d_big; [exact Ha | lia]|].
+      intros f r Hst Hk. cbn [print_arg Z.eqb Pos.eqb orb]. rewrite (big_format_signed f _ v Hst); [reflexivity | unfold two63 in *; lia].
+    - exists (GBig v). split; [apply conv_arg_d_big; [exact Ha | lia]|].
+      intros f r Hst Hk. cbn [print_arg Z.eqb Pos.eqb orb]. rewrite (big_format_signed f _ v Hst); [reflexivity | unfold two63 in *; lia]. }
+  destruct (d_conv d) eqn:EC; try discriminate; cbn [conv_ty go_conv_byte] in *.
+  - destruct Sg as (g & G1 & G2). exists g. split; [exact G1|]. intros f Hst. apply G2; assumption.
+  - destruct Sg as (g & G1 & G2). exists g. split; [exact G1|]. intros f Hst. apply G2; assumption.
+  - exists (GUint (v mod two64)). split; [apply conv_arg_u; [exact Ha | exact (Hu eq_refl)]|].
+    intros f Hst. cbn [print_arg int_verb Z.eqb Pos.eqb orb]. rewrite (fmt_integer_o f _ v Hst Hok). reflexivity.
+  - exists (GUint (v mod two64)). split; [apply conv_arg_u; [exact Ha | exact (Hu eq_refl)]|].
+    intros f Hst. cbn [print_arg int_verb Z.eqb Pos.eqb orb]. rewrite (fmt_integer_u f _ v Hst Hok). reflexivity.
+  - exists (GUint (v mod two64)). split; [apply conv_arg_u; [exact Ha | exact (Hu eq_refl)]|].
+    intros f Hst. cbn [print_arg int_verb Z.eqb Pos.eqb orb]. rewrite (fmt_integer_x f _ v Hst Hok). reflexivity.
+  - exists (GUint (v mod two64)). split; [apply conv_arg_u; [exact Ha | exact (Hu eq_refl)]|].
+    intros f Hst. cbn [print_arg int_verb Z.eqb Pos.eqb orb]. rewrite (fmt_integer_X f _ v Hst Hok). reflexivity.
+Qed.
+
+(* ---- one directive, any conversion: sprintf = pre ++ (what fmt prints for the converted
+        argument under the state of the effective directive) ++ post ---- *)
+Lemma eff_wf_lim d wv pv : wf_dir d = true -> lim d wv pv ->
+  wf_dir (eff_dir d pv) = true /\ in_lim (eff_dir d pv) wv (eff_pv d pv) /\ d_conv (eff_dir d pv) = d_conv d.
+Proof.
+  intros Hwf [L1 L2]. destruct d as [fl w p cv]. unfold eff_dir, eff_pv, in_lim, set_dprec, wf_dir in *.
+  cbn [d_flags d_width d_prec d_conv] in *.
+  destruct p as [|ds|]; cbn [d_flags d_width d_prec d_conv].
+  - destruct (is_g cv); cbn [d_flags d_width d_prec d_conv].
+    + split; [|split; [split; [exact L1 | vm_compute; discriminate] | reflexivity]].
+      apply andb_true_iff in Hwf as [H _]. rewrite H. reflexivity.
+    + split; [exact Hwf | split; [split; assumption | reflexivity]].
+  - split; [exact Hwf | split; [split; assumption | reflexivity]].
+  - destruct (pv <? 0) eqn:EN; cbn [andb].
+    + destruct (is_float_conv cv); cbn [negb d_flags d_width d_prec d_conv].
+      * split; [exact Hwf | split; [split; [exact L1 | lia] | reflexivity]].
+      * split; [|split; [split; [exact L1 | exact I] | reflexivity]].
+        apply andb_true_iff in Hwf as [H _]. rewrite H. reflexivity.
+    + apply Z.ltb_ge in EN. cbn [d_flags d_width d_prec d_conv]. split; [exact Hwf | split; [split; [exact L1 | lia] | reflexivity]].
+Qed.
+
+Theorem sprintf_dir_eff chars ffmt d pre post aw ap a extra wv pv g out :
+  wf_dir d = true -> no_pct pre = true -> no_pct post = true -> lim d wv pv ->
+  (d_width d = WStar -> awk_int (v_num aw) = Some wv) ->
+  (d_prec d = PrStar -> awk_int (v_num ap) = Some pv) ->
+  conv_arg chars ffmt (conv_ty (d_conv d)) a = Ok g ->
+  (forall f, st_matches f (resolve (eff_dir d pv) wv (eff_pv d pv)) ->
+             print_arg f g (go_conv_byte (d_conv d)) = Ok out) ->
+  sprintf chars ffmt (pre ++ render d ++ post) (args_for d aw ap a extra) = Ok (pre ++ out ++ post).
+Proof.
+  intros Hwf Hpre Hpost Hlim Hw Hp Hg Hpr.
+  unfold sprintf. rewrite (parse_render d pre post Hwf Hpre Hpost).
+  assert (Hw' : d_width d = WStar -> conv_arg chars ffmt TyD aw = Ok (GInt wv)).
+  { intros E. apply conv_arg_d_in_range; [exact (Hw E)|]. destruct Hlim as [L _]. rewrite E in L. unfold two63. lia. }
+  assert (Hp' : d_prec d = PrStar -> f2i64 (v_num ap) = pv).
+  { intros E. apply f2i64_awk_int; [exact (Hp E)|]. destruct Hlim as [_ L]. rewrite E in L. unfold two63 in *. lia. }
+  destruct (conv_args_render chars ffmt d aw ap a extra wv pv g pre post Hw' Hp' Hg) as [Hca Hlen].
+  rewrite Hlen, Hca. cbn [rbind fst snd].
+  destruct (eff_wf_lim d wv pv Hwf Hlim) as (Ewf & Elim & Ecv).
+  destruct (go_sprintf_tail (eff_dir d pv) wv (eff_pv d pv) (go_conv_byte (d_conv d)) g pre post
+              Ewf Elim (go_conv_byte_ok _) Hpre Hpost) as (f & Hst & Hgo).
+  rewrite Hgo. rewrite (Hpr f Hst). reflexivity.
+Qed.
+
+(* ---- e E f g G of an infinity or NaN ---- *)
+Theorem sprintf_nonfinite_agree chars ffmt d pre post aw ap a extra wv pv x :
+  wf_dir d = true -> is_float_conv (d_conv d) = true ->
+  no_pct pre = true -> no_pct post = true -> lim d wv pv ->
+  (d_width d = WStar -> awk_int (v_num aw) = Some wv) ->
+  (d_prec d = PrStar -> awk_int (v_num ap) = Some pv) ->
+  v_num a = x -> (match x with FFin _ _ => False | _ => True end) ->
+  sprintf chars ffmt (pre ++ render d ++ post) (args_for d aw ap a extra)
+  = Ok (pre ++ c_directive chars d wv pv (ANonFin x) ++ post).
+Proof.
+  intros Hwf Hfc Hpre Hpost Hlim Hw Hp Hx Hnf.
+  apply (sprintf_dir_eff chars ffmt d pre post aw ap a extra wv pv (GNonFinite x)); try assumption.
+  - destruct (d_conv d); try discriminate; cbn [conv_ty conv_arg]; rewrite Hx; destruct x; try contradiction; reflexivity.
+  - intros f Hst. cbn [print_arg]. rewrite (nf_format_nonfinite f _ x _ Hst Hnf).
+    (* the specification of non-finite values does not look at the precision *)
+    assert (E : forall r r' up, r_minus r = r_minus r' -> r_plus r = r_plus r' -> r_space r = r_space r' ->
+                r_zero r = r_zero r' -> r_width r = r_width r' -> c_nonfinite r x up = c_nonfinite r' x up).
+    { intros r r' up A B C D W. unfold c_nonfinite, c_field. rewrite A, B, C, D, W. reflexivity. }
+    unfold c_directive.
+    assert (R : forall up, c_nonfinite (resolve (eff_dir d pv) wv (eff_pv d pv)) x up = c_nonfinite (resolve d wv pv) x up).
+    { intros up. apply E; destruct d as [fl w p cv]; unfold eff_dir, eff_pv, resolve, set_dprec; cbn [d_flags d_width d_prec d_conv];
+        destruct p; try reflexivity; try (destruct (is_g cv); reflexivity);
+        destruct ((pv <? 0) && negb (is_float_conv cv)); reflexivity. }
+    rewrite R. destruct (d_conv d); try discriminate; reflexivity.
+Qed.
+
 Theorem sprintf_int_agree chars ffmt d pre post aw ap a extra wv pv v :
   wf_dir d = true -> is_int_conv (d_conv d) = true ->
   no_pct pre = true -> no_pct post = true ->
-  in_lim d wv pv ->
+  lim d wv pv ->
   (d_width d = WStar -> awk_int (v_num aw) = Some wv) ->
   (d_prec d = PrStar -> awk_int (v_num ap) = Some pv) ->
-  awk_int (v_num a) = Some v -> - two63 <= v < two63 ->
+  awk_int (v_num a) = Some v ->
+  (conv_ty (d_conv d) = TyU -> - two63 <= v < two64) ->
   int_ok d (resolve d wv pv) v ->
   sprintf chars ffmt (pre ++ render d ++ post) (args_for d aw ap a extra)
   = Ok (pre ++ c_directive chars d wv pv (AInt v) ++ post).
 Proof.
-  intros Hwf Hic Hpre Hpost Hlim Hw Hp Ha Hv Hok.
-  unfold sprintf. rewrite (parse_render d pre post Hwf Hpre Hpost).
-  assert (Hw' : d_width d = WStar -> f2i64 (v_num aw) = wv).
-  { intros E. apply f2i64_awk_int; [exact (Hw E)|]. destruct Hlim as [L _]. rewrite E in L. unfold two63. lia. }
-  assert (Hp' : d_prec d = PrStar -> f2i64 (v_num ap) = pv).
-  { intros E. apply f2i64_awk_int; [exact (Hp E)|]. destruct Hlim as [_ L]. rewrite E in L. unfold two63. lia. }
-  pose proof (f2i64_awk_int _ _ Ha Hv) as Hf.
-  set (g := match conv_ty (d_conv d) with TyD => GInt v | _ => GUint (v mod two64) end).
-  assert (Hg : conv_arg chars ffmt (conv_ty (d_conv d)) a = Ok g).
-  { unfold g. destruct (d_conv d); try discriminate; cbn [conv_ty conv_arg]; rewrite Hf; try reflexivity;
-      rewrite (i64_to_u64_mod v Hv); reflexivity. }
-  destruct (conv_args_render chars ffmt d aw ap a extra wv pv g Hw' Hp' Hg) as [Hca Hlen].
-  rewrite Hlen, Hca. cbn [rbind].
-  destruct (go_sprintf_render d wv pv g pre post Hwf Hlim Hpre Hpost) as (f & Hst & Hgo).
-  rewrite Hgo. unfold c_directive, int_ok in *. unfold g.
-  destruct (d_conv d); try discriminate; cbn [conv_ty go_conv_byte print_arg int_verb Z.eqb Pos.eqb orb].
-  - rewrite (fmt_integer_signed f _ v Hst Hok). reflexivity.
-  - rewrite (fmt_integer_signed f _ v Hst Hok). reflexivity.
-  - rewrite (fmt_integer_o f _ v Hst Hok). reflexivity.
-  - rewrite (fmt_integer_u f _ v Hst Hok). reflexivity.
-  - rewrite (fmt_integer_x f _ v Hst Hok). reflexivity.
-  - rewrite (fmt_integer_X f _ v Hst Hok). reflexivity.
+  intros Hwf Hic Hpre Hpost Hlim Hw Hp Ha Hu Hok.
+  destruct (int_arg_print chars ffmt d wv pv a v Hic Ha Hu Hok) as (g & Hg & Hpr).
+  assert (Hfl : is_float_conv (d_conv d) = false /\ is_g (d_conv d) = false) by (destruct (d_conv d); try discriminate; split; reflexivity).
+  destruct Hfl as [Hfl Hgg]. destruct (resolve_eff d wv pv Hfl Hgg) as (_ & _ & Eres & _).
+  apply (sprintf_dir_eff chars ffmt d pre post aw ap a extra wv pv g); try assumption.
+  rewrite Eres. exact Hpr.
 Qed.
